@@ -1,2 +1,73 @@
-(* C15 -- placeholder *)
-Theorem C15_placeholder : True. Proof. exact I. Qed.
+(* C15 -- keep-alive, timeouts and polling fire when, and only when, they should.  Statements only.
+   Time is in integer ticks (1/1024 s); the check instants are the moments _regular() runs: after every selector
+   wake-up and after every event of a read.  "gaps_le p" is the environment hypothesis that the selector returns
+   within its timeout p and that handlers take no virtual time. *)
+From Coq Require Import List ZArith Bool.
+From Model Require Import Conn.
+From Proofs Require Import TimerFacts TimerTie.
+Import ListNotations.
+Open Scope Z_scope.
+
+(* --- the model's _regular() realises the step functions --- *)
+Theorem C15_regular_is_poll_step : forall cf app c, k_ready c = true ->
+  k_poll_start (fst (regular cf app c)) = fst (poll_step (c_poll cf) (k_poll_start c) (session_time c)).
+Proof. exact regular_poll_start. Qed.
+Print Assumptions C15_regular_is_poll_step.
+
+Theorem C15_regular_is_ping_step : forall cf app c, k_ready c = true ->
+  k_next_ping (fst (regular cf app c)) = k_next_ping c \/
+  k_next_ping (fst (regular cf app c)) = fst (ping_step (c_ping_rate cf) (k_next_ping c) (session_time c)).
+Proof. exact regular_next_ping. Qed.
+Print Assumptions C15_regular_is_ping_step.
+
+Theorem C15_no_timer_before_ready : forall cf app c, k_ready c = false -> regular cf app c = (c, SOk).
+Proof. exact regular_before_ready. Qed.
+
+(* --- Poll: begins right after Ready, never closer than p, never further apart than 2p --- *)
+Theorem C15_poll_begins_at_ready : forall p t rest, polls p None (t :: rest) = t :: polls p (Some t) rest.
+Proof. exact polls_begin. Qed.
+Theorem C15_poll_not_closer_than_p : forall p ts s last, s <= last -> nondecreasing_from last ts ->
+  chain (fun a b => p <= b - a) s (polls p (Some s) ts).
+Proof. exact polls_not_closer. Qed.
+Print Assumptions C15_poll_not_closer_than_p.
+Theorem C15_poll_not_further_than_2p : forall p ts s last, s <= last -> last - s < p -> nondecreasing_from last ts ->
+  gaps_le p last ts -> chain (fun a b => b - a < 2 * p) s (polls p (Some s) ts).
+Proof. exact polls_not_further. Qed.
+Print Assumptions C15_poll_not_further_than_2p.
+
+(* --- automatic Ping: never when r = 0; never twice in one period; within p after every multiple of r --- *)
+Theorem C15_no_ping_when_rate_zero : forall np ts, pings 0 np ts = [].
+Proof. exact no_pings_when_rate_zero. Qed.
+Theorem C15_ping_once_per_period : forall r ts, 0 < r ->
+  chain (fun a b => ceil_div a r < ceil_div b r) 0 (pings r 0 ts).
+Proof. intros. apply pings_one_per_period_from_ready. assumption. Qed.
+Print Assumptions C15_ping_once_per_period.
+Theorem C15_ping_within_p_after_every_multiple : forall r p k, 0 < r -> forall ts np last,
+  np <= k * r -> (exists j, np = j * r) -> last <= k * r -> gaps_le p last ts -> nondecreasing_from last ts ->
+  (exists t, In t ts /\ k * r < t) ->
+  exists u, In u (pings r np ts) /\ k * r < u <= k * r + p.
+Proof. exact ping_after_every_multiple. Qed.
+Print Assumptions C15_ping_within_p_after_every_multiple.
+
+(* --- Unresponsive / forced disconnect: only when due; the close deadline is noticed within p --- *)
+Theorem C15_forced_only_when_due : forall cf app c, k_ready c = true ->
+  snd (regular cf app c) = SRaise SForce ->
+  (exists v, c_ping_timeout cf = Some v /\ v <> 0 /\ session_time c - k_last_pong c > v) \/
+  (exists v s, c_close_timeout cf = Some v /\ v <> 0 /\ s + v <= session_time c).
+Proof. exact regular_force_only_when_due. Qed.
+Print Assumptions C15_forced_only_when_due.
+Theorem C15_unresponsive_iff : forall T lp t,
+  unresponsive T lp t = true <-> exists v, T = Some v /\ v <> 0 /\ t - lp > v.
+Proof. exact unresponsive_iff. Qed.
+Theorem C15_close_timeout_window : forall C v s p, C = Some v -> v <> 0 -> forall ts last,
+  last < s + v -> gaps_le p last ts -> nondecreasing_from last ts ->
+  forall t, In t ts -> close_overdue C (Some s) t = true ->
+  exists t1, In t1 ts /\ close_overdue C (Some s) t1 = true /\ s + v <= t1 <= s + v + p.
+Proof. exact first_overdue_check_within_p. Qed.
+Print Assumptions C15_close_timeout_window.
+
+Example C15_nonvacuous :
+  polls 5 None [0; 0; 5; 9; 10; 14; 15; 20] = [0; 5; 10; 15; 20] /\
+  pings 12 0 [0; 5; 10; 15; 20; 25; 30; 35; 40] = [5; 15; 25; 40] /\
+  gaps_le 5 0 [0; 5; 10; 15; 20; 25; 30; 35; 40] /\ nondecreasing_from 0 [0; 5; 10; 15; 20; 25; 30; 35; 40].
+Proof. vm_compute. repeat split; intros; discriminate. Qed.
